@@ -75,7 +75,7 @@ def run_unit(args):
     if kind == 'contract':
       con = REGISTRY[name]
       obls, rep = body_obligations(_state['prog'], con, _state['lib'], loop_hook=C.LOOP_HOOK, only_case=case)
-      rep = {k: (sorted(v) if isinstance(v, set) else v) for k, v in rep.items()}
+      rep = {k: (sorted(v, key=str) if isinstance(v, set) else v) for k, v in rep.items()}
       out['report'] = rep
     else:
       lem = C.LEMMAS[name]
